@@ -1,12 +1,307 @@
-import BlockCiphers.Gen.Sites
-import BlockCiphers.Sites.Reviewed
+import BlockCiphers.Proofs.Sites
+import BlockCiphers.Proofs.IdeaC20
+import BlockCiphers.Proofs.IdeaInv
+import BlockCiphers.Proofs.TwofishC20
+import BlockCiphers.Proofs.AriaDiffuse
+import BlockCiphers.Proofs.BeltSpec
+import BlockCiphers.Proofs.CamelliaSpec
+import BlockCiphers.Proofs.Cast6
+import BlockCiphers.Proofs.Gift
+import BlockCiphers.Proofs.Rc5Spec
+import BlockCiphers.Proofs.SerpentSpec
+import BlockCiphers.Proofs.Sm4Spec
+import BlockCiphers.Proofs.MagmaSpec
+import BlockCiphers.Proofs.DesSpecSbox
 /-
-C20 — encrypt/decrypt are total: no panic, overflow or profile dependence.
+C20 — encrypt/decrypt are total: no panic, overflow or profile dependence
+GENERATED statement file (tools/gen_thm.py): every theorem below restates, verbatim, a theorem of a Proofs/ module
+and is proved by applying it.  ONLY property theorems and non-vacuity examples live in Thm/.
+(1) the inventory theorem: every panic-capable site of /repo (re-extracted now) is in the reviewed list; (2) the no-overflow / in-range lemmas
+of the data-dependent sites: IDEA (mul, add, key rotation, mul_inv Euclid loop with every dev-profile panic made explicit, for all 65536 operands),
+Twofish, ARIA/Camellia carry-free products, BelT/CAST-256/SM4/Magma/DES table indices, RC5 key_into_words and table indices (all w, r, b),
+Serpent padding index, GIFT ror shift amounts.  Sites that depend on loop counters and constants only are executed identically on every call:
+the dev-profile run of the correspondence covers them exhaustively.
 -/
-namespace BC.Thm.C20
 
+namespace BC.Sites
+/-- soundness of the merge: whatever the order of the lists, `true` means inclusion -/
+theorem C20.subsetSorted_sound : ∀ (f : Nat) (a b : List Site), subsetSorted f a b = true → ∀ x ∈ a, x ∈ b :=
+  _root_.BC.Sites.subsetSorted_sound
+end BC.Sites
+
+namespace BC.Sites
+theorem C20.sites_merge : subsetSorted (BC.Gen.sites.length + reviewed.length) BC.Gen.sites reviewed = true :=
+  _root_.BC.Sites.sites_merge
+end BC.Sites
+
+namespace BC.Sites
 /-- every panic-capable site present in /repo now was reviewed (no new plain arithmetic, indexing, unwrap or
 assertion has appeared since the review) -/
-theorem all_sites_reviewed : BC.Gen.sites.all (fun s => BC.Sites.reviewed.contains s) = true := by decide +kernel
+theorem C20.all_sites_reviewed : ∀ s ∈ BC.Gen.sites, s ∈ reviewed :=
+  _root_.BC.Sites.all_sites_reviewed
+end BC.Sites
 
-end BC.Thm.C20
+namespace BC.Sites
+/-- non-vacuity: the inventory is not empty (≈ 980 sites at the pinned commit) -/
+theorem C20.sites_nonempty : 900 < BC.Gen.sites.length :=
+  _root_.BC.Sites.sites_nonempty
+end BC.Sites
+
+namespace BC.Idea
+/-- expand_key: `(u16::from(key[2*i]) << 8) + u16::from(key[2*i+1])` -/
+theorem C20.c20_expand_bytes (hi lo : BitVec 8) :
+    BitVec.uaddOverflow (hi.setWidth 16 <<< 8 : BitVec 16) (lo.setWidth 16) = false :=
+  _root_.BC.Idea.c20_expand_bytes hi lo
+end BC.Idea
+
+namespace BC.Idea
+/-- expand_key: the subtractions `i - 15`, `i - 7`, `i - 14`, `i - 6` do not underflow and read entries that
+were written before (`< i`), for `8 ≤ i < 52` -/
+theorem C20.c20_expand_idx (i : Nat) (h8 : 8 ≤ i) (h : i < 52) :
+    ((i + 1) % 8 = 0 → 15 ≤ i) ∧ 7 ≤ i ∧ ((i + 2) % 8 < 2 → 14 ≤ i) ∧ 6 ≤ i ∧
+    expandIdxA i < i ∧ expandIdxB i < i :=
+  _root_.BC.Idea.c20_expand_idx i h8 h
+end BC.Idea
+
+namespace BC.Idea
+/-- expand_key: `(a << 9) + (b >> 7)` -/
+theorem C20.c20_expand_rot (a b : BitVec 16) : BitVec.uaddOverflow (a <<< 9) (b >>> 7) = false :=
+  _root_.BC.Idea.c20_expand_rot a b
+end BC.Idea
+
+namespace BC.Idea
+/-- invert_sub_keys: `k - j`, `l + m`, `l + n`, `l + 3`, `j + 3` (first loop), `l + 5`, `j + 5` (second loop) -/
+theorem C20.c20_invert_idx (i : Nat) :
+    (i ≤ ROUNDS → i * 6 ≤ ROUNDS * 6 ∧ ROUNDS * 6 - i * 6 + 3 < 52 ∧ i * 6 + 3 < 52) ∧
+    (i < ROUNDS → i * 6 ≤ (ROUNDS - 1) * 6 ∧ (ROUNDS - 1) * 6 - i * 6 + 5 < 52 ∧ i * 6 + 5 < 52) :=
+  _root_.BC.Idea.c20_invert_idx i
+end BC.Idea
+
+namespace BC.Idea
+/-- crypt: `sub_keys[j .. j + 5]`, `j = i * 6`, `i < 8` -/
+theorem C20.c20_crypt_idx (i : Nat) (h : i < ROUNDS) : i * 6 + 5 < LENGTH_SUB_KEYS :=
+  _root_.BC.Idea.c20_crypt_idx i h
+end BC.Idea
+
+namespace BC.Idea
+/-- mul: `MAXIM - y`, `MAXIM - x` -/
+theorem C20.c20_mul_maxim_sub (y : BitVec 16) : BitVec.usubOverflow MAXIM (y.setWidth 32) = false :=
+  _root_.BC.Idea.c20_mul_maxim_sub y
+end BC.Idea
+
+namespace BC.Idea
+/-- mul: `x * y` in `u32` -/
+theorem C20.c20_mul_prod (a b : BitVec 16) :
+    BitVec.umulOverflow (a.setWidth 32 : BitVec 32) (b.setWidth 32) = false :=
+  _root_.BC.Idea.c20_mul_prod a b
+end BC.Idea
+
+namespace BC.Idea
+/-- mul: `((c & ONE) as i32) - ((c >> 16) as i32)` -/
+theorem C20.c20_mul_i32_sub (c : BitVec 32) : BitVec.ssubOverflow (c &&& ONE) (c >>> 16) = false :=
+  _root_.BC.Idea.c20_mul_i32_sub c
+end BC.Idea
+
+namespace BC.Idea
+/-- mul: `r += MAXIM as i32` (executed when `r < 0`) -/
+theorem C20.c20_mul_i32_add (c : BitVec 32) (h : ((c &&& ONE) - (c >>> 16)).slt 0#32 = true) :
+    BitVec.saddOverflow ((c &&& ONE) - (c >>> 16)) MAXIM = false :=
+  _root_.BC.Idea.c20_mul_i32_add c h
+end BC.Idea
+
+namespace BC.Idea
+/-- add: `u32::from(a) + u32::from(b)` -/
+theorem C20.c20_add (a b : BitVec 16) :
+    BitVec.uaddOverflow (a.setWidth 32 : BitVec 32) (b.setWidth 32) = false :=
+  _root_.BC.Idea.c20_add a b
+end BC.Idea
+
+namespace BC.Idea
+/-- add_inv: `FUYI - u32::from(a)` -/
+theorem C20.c20_add_inv (a : BitVec 16) : BitVec.usubOverflow FUYI (a.setWidth 32) = false :=
+  _root_.BC.Idea.c20_add_inv a
+end BC.Idea
+
+namespace BC.Idea
+/-- C20-SITE `mul_inv`: no panic site is reached and the loop ends, for every `a`. -/
+theorem C20.mulInvChecked_eq (a : BitVec 16) : mulInvChecked a = some (mulInv a) :=
+  _root_.BC.Idea.mulInvChecked_eq a
+end BC.Idea
+
+namespace BC.Twofish
+/-- `QBOX[i]` with `i = QORD[y][z]`: the entries of `QORD` are 0 or 1 -/
+theorem C20.c20_qord_lt : ∀ (y : Fin 4) (z : Fin 5), qord y.val z.val < 2 :=
+  _root_.BC.Twofish.c20_qord_lt
+end BC.Twofish
+
+namespace BC.Twofish
+/-- sbox: the four table indices `a1, b1, a3, b3` are `< 16` (for both tables, all 256 inputs) -/
+theorem C20.c20_sbox_idx : ∀ (i : Fin 2) (x : BitVec 8),
+    (sboxTrace i.val x).a1.toNat < 16 ∧ (sboxTrace i.val x).b1.toNat < 16 ∧
+    (sboxTrace i.val x).a3.toNat < 16 ∧ (sboxTrace i.val x).b3.toNat < 16 :=
+  _root_.BC.Twofish.c20_sbox_idx
+end BC.Twofish
+
+namespace BC.Twofish
+/-- sbox: `(b4 << 4) + a4` does not overflow `u8` (for both tables, all 256 inputs) -/
+theorem C20.c20_sbox_add : ∀ (i : Fin 2) (x : BitVec 8),
+    BitVec.uaddOverflow ((sboxTrace i.val x).b4 <<< 4) (sboxTrace i.val x).a4 = false :=
+  _root_.BC.Twofish.c20_sbox_add
+end BC.Twofish
+
+namespace BC.Twofish
+/-- h: the byte indices into the key, `offset ≤ 1`, key length `8 k` -/
+theorem C20.c20_h_idx (k offset : Nat) (ho : offset ≤ 1) (hk : k = 2 ∨ k = 3 ∨ k = 4) :
+    (k = 4 → 4 * (6 + offset) + 3 < 8 * k) ∧ (k ≥ 3 → 4 * (4 + offset) + 3 < 8 * k) ∧
+    4 * (2 + offset) + 3 < 8 * k ∧ 4 * offset + 3 < 8 * k :=
+  _root_.BC.Twofish.c20_h_idx k offset ho hk
+end BC.Twofish
+
+namespace BC.Twofish
+/-- g_func: `self.s[4 * (z - self.start - 1) + y]` for `start < z < 5`, `y < 4` -/
+theorem C20.c20_g_idx (start z y : Nat) (hs : start ≤ 2) (hz1 : start + 1 ≤ z) (hz : z < 5) (hy : y < 4) :
+    start + 1 ≤ z ∧ 4 * (z - start - 1) + y < 16 :=
+  _root_.BC.Twofish.c20_g_idx start z y hs hz1 hz hy
+end BC.Twofish
+
+namespace BC.Twofish
+/-- g_func: `x >> (8 * y)` -/
+theorem C20.c20_g_shift (y : Nat) (hy : y < 4) : 8 * y < 32 :=
+  _root_.BC.Twofish.c20_g_shift y hy
+end BC.Twofish
+
+namespace BC.Twofish
+/-- key_schedule: `rho * (2 * x)` and `rho * (2 * x + 1)` in `u32`, `x < 20` -/
+theorem C20.c20_rho (x : Nat) (hx : x < 20) :
+    2 * x + 1 < 2 ^ 32 ∧ rho.toNat * (2 * x) < 2 ^ 32 ∧ rho.toNat * (2 * x + 1) < 2 ^ 32 :=
+  _root_.BC.Twofish.c20_rho x hx
+end BC.Twofish
+
+namespace BC.Twofish
+/-- key_schedule: `self.k[2 * x]`, `self.k[2 * x + 1]` -/
+theorem C20.c20_ks_idx (x : Nat) (hx : x < 20) : 2 * x + 1 < 40 :=
+  _root_.BC.Twofish.c20_ks_idx x hx
+end BC.Twofish
+
+namespace BC.Twofish
+/-- key_schedule: `key[i*8..i*8+8]` and `self.s[i*4..(i+1)*4]` for `i < k = len / 8` -/
+theorem C20.c20_ks_slices (len i : Nat) (hl : len = 16 ∨ len = 24 ∨ len = 32) (hi : i < len / 8) :
+    i * 8 + 8 ≤ len ∧ (i + 1) * 4 ≤ 16 :=
+  _root_.BC.Twofish.c20_ks_slices len i hl hi
+end BC.Twofish
+
+namespace BC.Twofish
+/-- encrypt_block / decrypt_block: `self.k[4 * r + 8 .. 4 * r + 11]` -/
+theorem C20.c20_round_idx (r : Nat) (hr : r < 8) : 4 * r + 8 + 3 < 40 :=
+  _root_.BC.Twofish.c20_round_idx r hr
+end BC.Twofish
+
+namespace BC.Aria
+open BC.Spec.Aria (A concat byteOf)
+/-- C20: none of the sixteen products of `diffuse` overflows a `u128`: a constant whose bytes are 0/1
+times a byte value ≤ 255 is at most `0x01…01 * 255 = 0xff…ff`. -/
+theorem C20.diffuse_mul_no_overflow (b : BitVec 8) :
+    ∀ c ∈ DIFFUSE_CONSTS, c.toNat * b.toNat < 2 ^ 128 :=
+  _root_.BC.Aria.diffuse_mul_no_overflow b
+end BC.Aria
+
+namespace BC.Belt
+/-- C20: the four table indices of `g!` are < 256 -/
+theorem C20.g_index_lt (u : BitVec 32) :
+    ((u >>> 24) &&& 0xFF#32).toNat < 256 ∧ ((u >>> 16) &&& 0xFF#32).toNat < 256 ∧
+    ((u >>> 8) &&& 0xFF#32).toNat < 256 ∧ (u &&& 0xFF#32).toNat < 256 :=
+  _root_.BC.Belt.g_index_lt u
+end BC.Belt
+
+namespace BC.Camellia
+open BC.Spec.Camellia (F FL FLINV hi64 lo64 join rotHi rotLo computeKA computeKB Subkeys subkeys128
+  subkeys256 MASK8 MASK32 MASK64 sbox1 sbox2 sbox3 sbox4)
+/-- C20: none of the eight products of `f` overflows a `u64` (dev-profile `*` does not panic) -/
+theorem C20.f_mul_no_overflow (t : BitVec 8) :
+    0x0101010001000001 * t.toNat < 2 ^ 64 ∧ 0x0001010101010000 * t.toNat < 2 ^ 64 ∧
+    0x0100010100010100 * t.toNat < 2 ^ 64 ∧ 0x0101000100000101 * t.toNat < 2 ^ 64 ∧
+    0x0001010100010101 * t.toNat < 2 ^ 64 ∧ 0x0100010101000101 * t.toNat < 2 ^ 64 ∧
+    0x0101000101010001 * t.toNat < 2 ^ 64 ∧ 0x0101010001010100 * t.toNat < 2 ^ 64 :=
+  _root_.BC.Camellia.f_mul_no_overflow t
+end BC.Camellia
+
+namespace BC.Cast6
+/-- the four indices used by `f1!/f2!/f3!` are below 256 -/
+theorem C20.sb_index_lt (i : BitVec 32) :
+    (i >>> 24).toNat < 256 ∧ ((i >>> 16) &&& 0xff#32).toNat < 256 ∧
+    ((i >>> 8) &&& 0xff#32).toNat < 256 ∧ (i &&& 0xff#32).toNat < 256 :=
+  _root_.BC.Cast6.sb_index_lt i
+end BC.Cast6
+
+namespace BC.Gift
+/-- every amount `y` with `0 < y < 32` keeps both shifts of `ror` in range (`y < 32` and `32 - y < 32`) and the
+subtraction from underflowing; the call sites use `y ∈ {8, 16, 20, 24}` -/
+theorem C20.ror_shift_amounts_in_range : ∀ y ∈ [8, 16, 20, 24], 0 < y ∧ y < 32 ∧ 32 - y < 32 ∧ y ≤ 32 :=
+  _root_.BC.Gift.ror_shift_amounts_in_range
+end BC.Gift
+
+namespace BC.Gift
+/-- for in-range amounts the shift formula is the rotation -/
+theorem C20.ror_eq_rotateRight (x : BitVec 32) (y : Nat) (_h0 : 0 < y) (h1 : y < 32) : ror x y = x.rotateRight y :=
+  _root_.BC.Gift.ror_eq_rotateRight x y _h0 h1
+end BC.Gift
+
+namespace BC.Rc5
+open BC
+theorem C20.kiw_index_lt {w : Nat} (h8 : 8 ≤ w) (b i : Nat) (hi : i < b) : i / wordBytes w < keyWords w b :=
+  _root_.BC.Rc5.kiw_index_lt h8 b i hi
+end BC.Rc5
+
+namespace BC.Rc5
+open BC
+/-- **C20** (`key_into_words`, the plain `+`): for every key, no addition overflows -/
+theorem C20.keyIntoWords_no_overflow {w : Nat} (hw : w % 8 = 0) (h8 : 8 ≤ w) (key : Bytes) :
+    KiwNoOverflow w key key.length (Array.replicate (keyWords w key.length) 0) :=
+  _root_.BC.Rc5.keyIntoWords_no_overflow hw h8 key
+end BC.Rc5
+
+namespace BC.Rc5
+open BC
+theorem C20.enc_index_lt (r i : Nat) (hi : i ≤ r) : 2 * i + 1 < tableSize r :=
+  _root_.BC.Rc5.enc_index_lt r i hi
+end BC.Rc5
+
+namespace BC.Serpent
+open BC.Spec.Serpent
+/-- `key[byte_i]` and `1 << bit_i` in `expand_key` are in range whenever they are executed -/
+theorem C20.expandKey_byte_index_lt (lenBits : Nat) (h : lenBits < 256) : lenBits / 8 < 32 ∧ lenBits % 8 < 8 :=
+  _root_.BC.Serpent.expandKey_byte_index_lt lenBits h
+end BC.Serpent
+
+namespace BC.Sm4
+open BC.Spec
+/-- every S-box look-up is in range -/
+theorem C20.sm4_sbox_index_lt (b : BitVec 8) : b.toNat < SBOX.size :=
+  _root_.BC.Sm4.sbox_index_lt b
+end BC.Sm4
+
+namespace BC.Magma
+/-- C20: the index of `apply_sbox` is < 256 -/
+theorem C20.sboxIndex_lt (a : BitVec 32) (i : Fin 4) : (sboxIndex a i).toNat < 256 :=
+  _root_.BC.Magma.sboxIndex_lt a i
+end BC.Magma
+
+namespace BC.Magma
+/-- `u8` sum of a nibble and a shifted nibble = concatenation (C20: no overflow) -/
+theorem C20.pair_nibbles (lo hi : BitVec 4) : lo.setWidth 8 + (hi.setWidth 8 <<< 4) = hi ++ lo :=
+  _root_.BC.Magma.pair_nibbles lo hi
+end BC.Magma
+
+namespace BC.Des
+open BC.Spec.Des (S sboxes)
+/-- every table entry is below 16 (so `<< (60 - 4 i)` loses nothing and the boxes do not overlap) -/
+theorem C20.sboxAt_lt : ∀ i : Fin 8, ∀ v : BitVec 6, sboxAt i.val (v.setWidth 64) < 16#64 :=
+  _root_.BC.Des.sboxAt_lt
+end BC.Des
+
+namespace BC.Des
+open BC.Spec.Des (S sboxes)
+/-- each inner array has 64 entries: the index `val & 0x3F` is always in range (C20) -/
+theorem C20.SBOXES_inner_size : ∀ i : Fin 8, (SBOXES.getD i.val #[]).size = 64 :=
+  _root_.BC.Des.SBOXES_inner_size
+end BC.Des
